@@ -14,7 +14,7 @@
 //   unevaluated_paren  an UnevaluatedExpr operand of lower precedence printed without parentheses [known finding D22]
 //   recip_denominator  1/f(x) printed for Cot/Csc/Sec/Coth/Csch/Sech without parentheses in a denominator [D25]
 //   int_division    integer numerator over an all-Integer Piecewise: int/int                   [known finding D26]
-#include "evalfam.h"
+#include "evalfam.h" // (evalfam.h rev 2: the build stamp only hashes this file)
 #include <symengine/printers.h>
 #include <symengine/printers/codegen.h>
 #include <symengine/real_double.h>
@@ -154,6 +154,8 @@ static RCP<const Basic> rewritten(const Basic &b)
 // denominator of a product or as the base of a power with exponent -1
 static bool is_recip_kind(const Basic &b)
 {
+    if (is_a<UnevaluatedExpr>(b)) // printed bare: the wrapper changes nothing in the output
+        return is_recip_kind(*b.get_args()[0]);
     switch (b.get_type_code()) {
         case SYMENGINE_COT:
         case SYMENGINE_CSC:
@@ -247,7 +249,13 @@ static bool uneval_loses(const Basic &b, int need, bool strict)
     RCP<const Basic> arg = b.get_args()[0];
     while (is_a<UnevaluatedExpr>(*arg))
         arg = arg->get_args()[0];
+    if (is_recip_kind(*arg))
+        return false; // classified as recip_denominator (finding D25) by has_recip_denominator
     int pr = sym_prec(arg);
+    // a power with exponent -1 is printed as the quotient 1/base although its precedence class is Pow
+    if (is_a<Pow>(*arg) && eq(*down_cast<const Pow &>(*arg).get_exp(), *minus_one)
+        && !eq(*down_cast<const Pow &>(*arg).get_base(), *E))
+        pr = (int)PrecedenceEnum::Mul;
     return strict ? pr <= need : pr < need;
 }
 static bool has_unevaluated_precedence_loss(const Basic &b)
